@@ -310,6 +310,9 @@ static std::string first_fn_of(const std::string &sym_detail, const char *key)
   return o;
 }
 
+static const RunCfg *g_cur_cfg = nullptr;
+static uint64_t g_cur_index = 0;
+
 static void serialise_current(const RunCfg &cfg, const RunOut &out, std::string *replay_json)
 {
     std::string j = "{\n";
@@ -384,6 +387,7 @@ static void serialise_current(const RunCfg &cfg, const RunOut &out, std::string 
 
 static void do_run(const RunCfg &cfg, RunOut &out, std::string *replay_json)
 {
+  g_cur_cfg = &cfg;
   g.scen = cfg.scen;
   g.tier = cfg.tier;
   sim_reset_run_state();
@@ -549,10 +553,98 @@ static void send_msg(int fd, char tag, const void *p, uint32_t n)
 
 static int g_child_fd = -1;
 static MsgBatch g_batch;
-static uint64_t g_cur_index = 0;
+
+
+// single-task (fault layer) lanes: a sanitizer report, a crash or a run that does not terminate IS
+// the violation (memory safety / totality); report it with the decisions taken so far
+static void report_fatal_as_violation(const char *sig_prefix, const char *what, uintptr_t pc)
+{
+  static volatile int once = 0;
+  if (once++)
+    _exit(71);
+  RunOut out;
+  out.result = RES_VIOLATION;
+  char fn[700] = "?";
+  if (pc)
+    image_symbolize(pc + 1, fn, sizeof fn);
+  std::string f = fn;
+  size_t at = f.find('@');
+  std::string fname = at == std::string::npos ? f : f.substr(0, at);
+  std::string o;
+  int depth = 0;
+  for (char c : fname) {
+    if (c == '<' || c == '(')
+      depth++;
+    else if (c == '>' || c == ')')
+      depth--;
+    else if (depth == 0)
+      o += c;
+  }
+  out.sig = std::string(sig_prefix) + ":" + what + (pc ? "|" + o : std::string());
+  out.detail = std::string(what) + " at " + fn;
+  out.ev_hash = g.ev_hash;
+  out.ilv_hash = g.ilv_hash;
+  out.steps = g.steps;
+  out.nontrivial = true;
+  std::string rj;
+  if (g_cur_cfg)
+    serialise_current(*g_cur_cfg, out, &rj);
+  char pth[512];
+  snprintf(pth, sizeof pth, "%s/fatal_p%d_i%lu.replay.json", getenv("RKSIM_OUTDIR") ? getenv("RKSIM_OUTDIR") : "/verif/build/scratch", (int)getpid(),
+           (unsigned long)g_cur_index);
+  FILE *f2 = fopen(pth, "w");
+  if (f2) {
+    fwrite(rj.data(), 1, rj.size(), f2);
+    fclose(f2);
+  }
+  if (g_child_fd >= 0) {
+    MsgRun m;
+    memset(&m, 0, sizeof m);
+    m.index = g_cur_index;
+    m.result = RES_VIOLATION;
+    m.nontrivial = 1;
+    m.ev_hash = g.ev_hash;
+    m.ilv_hash = g.ilv_hash;
+    m.steps = g.steps;
+    m.nthreads = (uint32_t)g.nthreads;
+    send_msg(g_child_fd, 'R', &m, sizeof m);
+    std::string v = std::to_string(g_cur_index) + "\t1\t" + out.sig + "\t" + pth + "\t" + out.detail;
+    send_msg(g_child_fd, 'V', v.c_str(), (uint32_t)v.size() + 1);
+    send_msg(g_child_fd, 'S', rj.c_str(), (uint32_t)rj.size() + 1);
+    g_batch.runs++;
+    send_msg(g_child_fd, 'B', &g_batch, sizeof g_batch);
+  }
+  _exit(0);
+}
+
+#ifdef RKSIM_ASAN_LANE
+extern "C" {
+void __sanitizer_set_death_callback(void (*)(void));
+int __asan_report_present(void);
+const char *__asan_get_report_description(void);
+void *__asan_get_report_pc(void);
+}
+static void on_sanitizer_death()
+{
+  if (__asan_report_present())
+    report_fatal_as_violation("sanitizer:asan", __asan_get_report_description(), (uintptr_t)__asan_get_report_pc());
+  else
+    report_fatal_as_violation("sanitizer", "ubsan-or-runtime-abort", 0);
+}
+extern "C" __attribute__((used)) const char *__asan_default_options()
+{
+  return "exitcode=77:detect_leaks=0:allocator_may_return_null=1:handle_segv=0:handle_sigbus=0:handle_abort=0:handle_sigfpe=0:handle_sigill=0:detect_stack_use_after_return=0:max_allocation_size_mb=4096";
+}
+extern "C" __attribute__((used)) const char *__ubsan_default_options() { return "halt_on_error=1:print_stacktrace=0"; }
+#endif
 
 static void child_crash_handler(int sig)
 {
+  if (g.scen && g.scen->nontrivial_faults && g.active) {
+    char w[64];
+    snprintf(w, sizeof w, sig == SIGALRM ? "no-termination-within-wall-budget" : "signal-%d", sig);
+    report_fatal_as_violation(sig == SIGALRM ? "hang" : "crash", w, 0);
+  }
   // report what we know and leave
   char buf[300];
   int n = snprintf(buf, sizeof buf, "%lu %d %d %s", (unsigned long)g_cur_index, sig, g.nviol,
@@ -589,6 +681,9 @@ static void batch_accumulate()
 
 static void install_child_handlers()
 {
+#ifdef RKSIM_ASAN_LANE
+  __sanitizer_set_death_callback(on_sanitizer_death);
+#endif
   struct sigaction sa;
   memset(&sa, 0, sizeof sa);
   sa.sa_handler = child_crash_handler;
